@@ -553,20 +553,31 @@ pub fn drive(
                 let mut scratch = Acc::new();
                 let mut ch = Chooser::new(&choices);
                 let sig = target.borrow().clone().unwrap_or_default();
-                match check(&mut ch, &mut scratch) {
-                    CaseResult::Fail(v) => {
+                // hash-order dependent failures may need a few attempts to show again
+                let mut reproduced = None;
+                for _ in 0..6 {
+                    let mut ch = Chooser::new(&choices);
+                    if let CaseResult::Fail(v) = check(&mut ch, &mut scratch) {
+                        reproduced = Some(v);
+                        break;
+                    }
+                }
+                let _ = &mut ch;
+                match reproduced {
+                    Some(v) => {
                         reported.insert(v.signature.clone());
                         if v.signature != sig {
                             reported.insert(sig);
                         }
                         acc.violations.push(v);
                     }
-                    CaseResult::Pass => {
-                        // not reproducible from the same choices: record as a flaky observation
+                    None => {
+                        // observed once, not reproducible from the same choices (iteration-order
+                        // dependent): keep the signature so that known-finding matching still works
                         reported.insert(sig.clone());
                         acc.violations.push(Violation::new(
-                            format!("{sig} (did not reproduce on re-run)"),
-                            "the failing case passed when re-run from the same choices",
+                            sig,
+                            "observed during the search but did not show again in 6 re-runs from the same choices (depends on hash iteration order)",
                             json!({ "choices": choices }),
                         ));
                     }
